@@ -336,3 +336,4 @@ pub fn f_opt_zip_then(x: u8, y: u8) -> u32 { let a = (x > 10).then_some(x); let 
 pub fn f_step_rev_range(x: u8, y: u8) -> u32 { let mut s = 0u32; for i in (0..8u8).rev().step_by(2) { if (x >> i) & 1 == 1 { s += 1 << i; } } for i in (1..=3u8).map(|k| k * 2) { s += (y as u32 >> i) & 1; } s + (0..x & 7).map(|v| v as u32).sum::<u32>() * 1024 + (0..=y & 3).rev().fold(0u32, |a, b| a * 4 + b as u32) * 65536 }
 pub fn f_any_all_range(x: u8, y: u8) -> u32 { ((0..8).any(|i| (x >> i) & 3 == 3) as u32) | ((0..8).all(|i| (y >> i) & 1 == 0 || i < 4) as u32) << 1 | ((0..8u32).filter(|i| (x >> i) & 1 == 1).count() as u32) << 2 | ((0..8u8).position(|i| (y >> i) & 1 == 1).map_or(15, |p| p as u32)) << 8 | ((0..8u8).rev().find(|i| (y >> i) & 1 == 1).map_or(15, |p| p as u32)) << 12 }
 pub fn f_last_max_sum(x: u8, y: u8) -> u32 { let a = [x, y, x ^ y]; a.iter().max().map_or(0, |v| *v as u32) + a.iter().min().map_or(0, |v| *v as u32) * 256 + a.iter().map(|v| *v as u32).product::<u32>() % 251 * 65536 }
+pub fn u_array_search(x: u8, y: u8) -> u32 { ([Key::A, Key::Up].into_iter().any(|k| k as u8 == x) as u32) | ([x, y, 3].into_iter().all(|v| v > 2) as u32) << 1 | ([1u8, 2, 30].into_iter().position(|v| v == x & 31).map_or(7, |i| i as u32)) << 2 | ([x, y].into_iter().find(|v| v & 1 == 1).map_or(0, |v| v as u32)) << 8 | ([x, y].into_iter().find_map(|v| v.checked_sub(200)).map_or(0, |v| v as u32)) << 16 }
